@@ -4,7 +4,9 @@ payload, exact 0 for a consumed one, the owed-bytes field for the length-checked
 and multipart streams, delegation for the chunk reader; (R2) the chunk reader's
 hint: lower = queued bytes, an upper bound only when the producer finished, nothing
 on non-live states; (R3) is_end_stream is true only for a consumed one-shot,
-owed bytes == 0, or the reader's table of C11.R3; (R4) the fields those answers
+owed bytes == 0, or the reader's table of C11.R3 - and, compared on the whole
+entry state, every state in which the reader's flag can be true is one in which
+its next poll returns the end; (R4) the fields those answers
 read are the accounted quantities (C01.R3/R5 owed bytes, C08.R3/R4 queued bytes,
 C20 terminal absorption; an error of the entity's stream, which does not end
 that stream, does not zero the owed bytes; the forwarding layers hand every answer
